@@ -39,6 +39,9 @@ type World struct {
 	Anon     []string
 	Preamble []string
 	Log      []string // operations applied, for messages
+	// Dot records, per path, whether the last hint given for it is ImportAlias(path, ".")
+	// (meaningful for histories without a render in between).
+	Dot map[string]bool
 	// TrueName gives the declared package name of a path: the name ImportName may (truthfully)
 	// state, and the name the fabricated importer declares the package under.
 	TrueName func(path string) string
@@ -71,7 +74,7 @@ func DefaultTrueName(table map[string]string) func(string) string {
 
 // New makes a world. ctor: "NewFile" (name main... no path), "NewFilePath", "NewFilePathName".
 func New(ctor, local string, trueName func(string) string) *World {
-	w := &World{Ctor: ctor, Local: local, TrueName: trueName}
+	w := &World{Ctor: ctor, Local: local, TrueName: trueName, Dot: map[string]bool{}}
 	switch ctor {
 	case "NewFile":
 		w.F = jen.NewFile("pkgmain")
@@ -168,6 +171,7 @@ func (w *World) Ref(path string, wrapper int) {
 
 func (w *World) Name(path string) {
 	w.F.ImportName(path, w.TrueName(path))
+	w.Dot[path] = false
 	w.Log = append(w.Log, fmt.Sprintf("ImportName(%q,%q)", path, w.TrueName(path)))
 }
 
@@ -175,6 +179,7 @@ func (w *World) Names(paths ...string) {
 	m := map[string]string{}
 	for _, p := range paths {
 		m[p] = w.TrueName(p)
+		w.Dot[p] = false
 	}
 	w.F.ImportNames(m)
 	w.Log = append(w.Log, fmt.Sprintf("ImportNames(%v)", m))
@@ -182,6 +187,7 @@ func (w *World) Names(paths ...string) {
 
 func (w *World) Alias(path, alias string) {
 	w.F.ImportAlias(path, alias)
+	w.Dot[path] = alias == "."
 	w.Log = append(w.Log, fmt.Sprintf("ImportAlias(%q,%q)", path, alias))
 }
 
@@ -210,13 +216,14 @@ func (w *World) CgoPreamble(s string) {
 
 // Spec is one import spec of the output.
 type Spec struct {
-	Name       string // "" when no name is written
-	Path       string
-	Decl       int    // index of its import declaration
-	Doc        string // doc comment text of the declaration (raw, with markers)
-	Alone      bool   // the only spec of its declaration
-	Line       int
-	DocEndLine int
+	Name        string // "" when no name is written
+	Path        string
+	Decl        int      // index of its import declaration
+	Doc         string   // doc comment text of the declaration (raw, with markers)
+	DocComments []string // the comments of the doc comment group
+	Alone       bool     // the only spec of its declaration
+	Line        int
+	DocEndLine  int
 }
 
 // Use is one occurrence of a reference symbol.
@@ -261,6 +268,7 @@ func Analyze(src string, w *World) (*Analysis, error) {
 				var parts []string
 				for _, c := range gd.Doc.List {
 					parts = append(parts, c.Text)
+					sp.DocComments = append(sp.DocComments, c.Text)
 				}
 				sp.Doc = strings.Join(parts, "\n")
 				sp.DocEndLine = fset.Position(gd.Doc.End()).Line
@@ -435,13 +443,12 @@ func CheckNames(a *Analysis, w *World) []string {
 			continue
 		}
 		if s.Path == "C" {
-			continue
-		}
-		if n != "" {
+			n = "C" // the cgo pseudo-package is always known as C
+		} else if n != "" {
 			if why := IllegalName(n); why != "" {
 				out = append(out, fmt.Sprintf("import name %q for %q is %s", n, s.Path, why))
 			}
-		} else {
+		} else if s.Path != "C" {
 			n = w.TrueName(s.Path)
 		}
 		if other, dup := byName[n]; dup && other != s.Path {
@@ -493,11 +500,14 @@ func CheckCgo(a *Analysis, w *World) []string {
 				out = append(out, fmt.Sprintf("import %q comes after the cgo import", s.Path))
 			}
 		}
-		want := make([]string, 0, len(w.Preamble))
+		var want, got []string
 		for _, p := range w.Preamble {
-			want = append(want, commentText(p))
+			want = append(want, CommentLines(p)...)
 		}
-		if got := strings.Join(docTexts(c.Doc), "\x00"); got != strings.Join(want, "\x00") {
+		for _, d := range c.DocComments {
+			got = append(got, CommentLines(d)...)
+		}
+		if strings.Join(got, "\x00") != strings.Join(want, "\x00") {
 			out = append(out, fmt.Sprintf("doc comment of import \"C\" is %q, want the preamble blocks %q in order", c.Doc, w.Preamble))
 		} else if c.DocEndLine+1 != c.Line {
 			out = append(out, fmt.Sprintf("blank line between the preamble (ends line %d) and import \"C\" (line %d)", c.DocEndLine, c.Line))
@@ -508,57 +518,76 @@ func CheckCgo(a *Analysis, w *World) []string {
 	return out
 }
 
-// commentText normalises the text of a comment given to Comment()/CgoPreamble(): the content
-// without comment markers, lines trimmed.
-func commentText(s string) string {
-	if strings.HasPrefix(s, "//") {
-		s = strings.TrimPrefix(s, "//")
-	} else if strings.HasPrefix(s, "/*") {
+// CommentLines returns the non-blank, trimmed lines of a comment's text with the comment markers
+// removed (for a raw "//" comment spanning several lines, from every line).
+func CommentLines(s string) []string {
+	if strings.HasPrefix(s, "/*") {
 		s = strings.TrimSuffix(strings.TrimPrefix(s, "/*"), "*/")
 	}
-	return normLines(s)
-}
-
-func normLines(s string) string {
 	var ls []string
+	slash := strings.HasPrefix(s, "//")
 	for _, l := range strings.Split(s, "\n") {
 		l = strings.TrimSpace(l)
+		if slash {
+			l = strings.TrimSpace(strings.TrimPrefix(l, "//"))
+		}
 		if l != "" {
 			ls = append(ls, l)
 		}
 	}
-	return strings.Join(ls, "\n")
+	return ls
 }
 
-// docTexts splits a raw doc comment (joined comment tokens) into the normalised texts of its
-// comments; consecutive // lines count as separate comments unless merged by the caller.
-func docTexts(doc string) []string {
+// CheckLocalDot (C06): references to the File's own path and to dot-imported paths are bare,
+// the local path is never imported, a dot-imported path has exactly one `. "path"` spec; every
+// other path is imported under a name and referenced through a qualifier.
+func CheckLocalDot(a *Analysis, w *World) []string {
 	var out []string
-	rest := doc
-	for rest != "" {
-		switch {
-		case strings.HasPrefix(rest, "/*"):
-			i := strings.Index(rest, "*/")
-			if i < 0 {
-				i = len(rest) - 2
-			}
-			out = append(out, normLines(rest[2:i]))
-			rest = strings.TrimPrefix(rest[i+2:], "\n")
-		case strings.HasPrefix(rest, "//"):
-			i := strings.Index(rest, "\n")
-			if i < 0 {
-				i = len(rest)
-			}
-			out = append(out, normLines(rest[2:i]))
-			if i < len(rest) {
-				i++
-			}
-			rest = rest[i:]
-		default:
-			out = append(out, "?"+rest)
-			rest = ""
+	symPath := map[string]string{}
+	used := map[string]bool{}
+	for _, r := range w.Refs {
+		symPath[r.Sym] = r.Path
+		if r.Rendered {
+			used[r.Path] = true
 		}
 	}
+	specs := map[string][]Spec{}
+	for _, s := range a.Specs {
+		specs[s.Path] = append(specs[s.Path], s)
+	}
+	for _, u := range a.Uses {
+		p := symPath[u.Sym]
+		local := w.Local != "" && p == w.Local
+		dot := w.Dot[p] && !local && p != "C"
+		switch {
+		case local && u.Qual != "":
+			out = append(out, fmt.Sprintf("reference to the local package %q rendered as %s.%s", p, u.Qual, u.Sym))
+		case dot && u.Qual != "":
+			out = append(out, fmt.Sprintf("reference to the dot-imported %q rendered as %s.%s", p, u.Qual, u.Sym))
+		case !local && !dot && u.Qual == "":
+			out = append(out, fmt.Sprintf("reference to %q (neither local nor dot-imported) rendered as the bare name %s", p, u.Sym))
+		}
+	}
+	if w.Local != "" && len(specs[w.Local]) > 0 {
+		out = append(out, fmt.Sprintf("the local package %q is imported", w.Local))
+	}
+	for p := range used {
+		if w.Local != "" && p == w.Local {
+			continue
+		}
+		if w.Dot[p] && p != "C" {
+			if len(specs[p]) != 1 || specs[p][0].Name != "." {
+				out = append(out, fmt.Sprintf("dot-imported %q has import specs %v, want exactly one `. %q`", p, specs[p], p))
+			}
+		} else if p != "C" {
+			for _, s := range specs[p] {
+				if s.Name == "." {
+					out = append(out, fmt.Sprintf("%q is dot-imported although its last hint is not a dot", p))
+				}
+			}
+		}
+	}
+	sort.Strings(out)
 	return out
 }
 
